@@ -1335,7 +1335,8 @@ class Gen(object):
 
     def scene(self, name=None):
         r = self.rng
-        name = name or r.choice(["topic", "captcha", "gates", "privs", "oper", "services", "limits", "holds", "quitlink"])
+        name = name or r.choice(["topic", "captcha", "gates", "privs", "oper", "services", "limits", "holds", "quitlink",
+                                 "latelink", "reincarnate"])
         cast = self._cast()
         if cast is None:
             return
@@ -1456,6 +1457,36 @@ class Gen(object):
             M(x, b"PING :later", big=r.random() < 0.5)
             M(x, b"NICK " + n)
             M(self.link, b"SVSHOLD " + n)
+        elif name == "latelink" and getattr(self, "svcpw", None):
+            # a services link that authenticates late: the burst describes users that are in 0, 1, 2, 3 channels
+            users = [u for u in self._alive(True) if not getattr(u, "is_link", False)][:4]
+            for n_, u in enumerate(users):
+                want = [2, 2, 3, 1][n_ % 4]
+                for cn in r.sample(CHAN_POOL, min(len(CHAN_POOL), 4)):
+                    if len(u.chans) >= want:
+                        break
+                    if chan_to_lower(cn) not in u.chans:
+                        M(u, b"JOIN " + cn)
+                        u.chans.add(chan_to_lower(cn))
+            L2 = self._C("link")
+            if L2 is not None:
+                L2.is_link = True
+                M(L2, b"PASS services=" + r.choice(self.svcpw))
+                M(L2, b"SERVER services%d.example 1 :Late services" % r.randint(2, 9))
+                if self.link is None or not self.link.alive:
+                    self.link = L2
+        elif name == "reincarnate":
+            # an invitation, then the channel dies and is re-created by somebody else as +i / +x: the old invitation
+            # must not open the new channel
+            M(o, b"INVITE %s %s" % (x.nick or b"x", c))
+            for u in self._alive(True):
+                if lc in u.chans:
+                    M(u, b"PART " + c)
+                    u.chans.discard(lc)
+            M(m, b"JOIN " + c)
+            m.chans.add(lc)
+            M(m, b"MODE %s %s" % (c, r.choice([b"+i", b"+i", b"+x"])))
+            M(x, b"JOIN " + c)
         elif name == "quitlink" and self.link and self.link.alive and len(self.pseudo) >= 2:
             for p_ in self.pseudo:
                 M(self.link, b":%s JOIN %s" % (p_, c))
@@ -2615,6 +2646,39 @@ def mon_c13(tr, secret=None):
     Judged on the state delta between consecutive dumps plus who acted.  secret: the captcha HMAC key of the case
     (tokens are judged with captcha_oracle); None = read it from the configuration in force."""
     F = []
+    # reference bookkeeping of invitations, independent of what the dump says is still recorded: an invitation is for
+    # the channel as it exists; it ends when it is used or when that channel is deleted (a later channel of the same
+    # name is another channel).  ref_before[i] = {session key: set(lcchan)} valid before step i, None = unknown.
+    ref_before, ref, P0 = {}, {}, None
+    for i, st in enumerate(tr.steps):
+        ref_before[i] = None if ref is None else {kk: set(v) for kk, v in ref.items()}
+        if not st.ran:
+            break
+        Q0 = st.st
+        if Q0 is None:
+            ref = None
+            continue
+        if ref is not None and P0 is not None:
+            for key, b in Q0.sessions.items():
+                a = P0.sessions.get(key)
+                if b is None:
+                    continue
+                old = a["inv"] if a else set()
+                for lc in b["inv"] - old:
+                    ref.setdefault(key, set()).add(lc)
+                for lc in old - b["inv"]:
+                    ref.get(key, set()).discard(lc)
+            for lc in set(P0.channels) - set(Q0.channels):
+                for v in ref.values():
+                    v.discard(lc)
+            for key in list(ref):
+                if key not in Q0.sessions:
+                    del ref[key]
+        elif ref is not None and P0 is None:
+            for key, b in Q0.sessions.items():
+                if b and b["inv"]:
+                    ref[key] = set(b["inv"])
+        P0 = Q0
     P = None
     for i, (e, st) in enumerate(zip(tr.entries, tr.steps)):
         if not st.ran:
@@ -2785,6 +2849,9 @@ def mon_c13(tr, secret=None):
                         bad("c13:join-badkey" + qual, "%r joined +k channel %r with key %r (key is %r)" % (actor, lc, key_given, c0["key"]))
                     if is_i and not inv:
                         bad("c13:join-uninvited", "%r joined +i channel %r without invitation" % (actor, lc))
+                    if inv and (is_i or is_x) and ref_before.get(i) is not None and lc not in ref_before[i].get(actor, ()):
+                        bad("c13:join-stale-invitation", "%r joined %s channel %r on an invitation that was issued for an earlier channel of that name "
+                            "(deleted since)" % (actor, "+i" if is_i else "+x", lc))
                     if inv and (is_i or is_x):
                         aq = Q.sessions.get(actor)
                         if aq is not None and lc in aq["inv"]:
